@@ -522,7 +522,15 @@ func types() []typ {
 					_ = p.Submit(ctx, pool.TaskFunc(func(ctx context.Context) error { use(it); it.v++; return nil }))
 					c()
 				},
-				"Start":       func(g, i int) { _ = p.Start() },
+				"Start": func(g, i int) {
+					// the first Start comes late enough for a States sampler that another worker has already
+					// started on the still-created pool to have ticked (States is legal before Start): an access
+					// of Start that is unordered with the sampler's reads shows only in this order
+					if i == 0 {
+						time.Sleep(1500 * time.Microsecond)
+					}
+					_ = p.Start()
+				},
 				"Shutdown":    func(g, i int) { _, _ = p.Shutdown() },
 				"ShutdownNow": func(g, i int) { _, _ = p.ShutdownNow() },
 				"States": func(g, i int) {
